@@ -36,6 +36,8 @@ _BIN = {'op': 'send_binary', 'hex': ('T1-1-' + 'e' * 130).encode().hex()}
 _PNG = {'op': 'send_ping', 'hex': b'T1-2-ping'.hex()}
 _CL = {'op': 'close', 'code': 1000, 'reason': 'bye'}
 _CL2 = {'op': 'close', 'code': 1001, 'reason': 'other'}
+_CLN = {'op': 'close', 'code': None, 'reason': ''}
+_BIG = {'op': 'send_binary', 'hex': ('T1-9-' + 'B' * 70000).encode().hex()}
 
 
 def _t(tid, op):
@@ -65,6 +67,14 @@ BASES = [
      'loop': ['close']},
     {'name': 'close_text_vs_loop_ping_close', 'threads': [[_CL], [_t(2, _TXT)]],
      'loop': ['ping', 'close']},
+    {'name': 'empty_close_vs_text', 'threads': [[_CLN], [_t(2, _TXT)]]},
+    {'name': 'empty_close_vs_close', 'threads': [[_CLN], [_CL2]]},
+    {'name': 'loop_echo_empty_close_vs_text', 'threads': [[_t(1, _TXT),
+                                                           _t(1, _BIN)]],
+     'loop': ['close_empty']},
+    {'name': 'close_vs_big_frame', 'threads': [[_CL], [_t(2, _BIG)]]},
+    {'name': 'loop_echo_vs_big_frame', 'threads': [[_t(1, _BIG)]],
+     'loop': ['close']},
     {'name': 'compressed_close_vs_text', 'threads': [[_CL], [_t(2, _TXT),
                                                              _t(2, _BIN)]],
      'compress': True},
@@ -95,25 +105,51 @@ def plan(tier):
     q = tier == 'quick'
     if not q:
         return [('sweep1', len(BASES) * SLOT1),
+                ('sweep1b', len(BASES) * SLOT1),
                 ('sweep2_full', sum(_full2_size(b) for b in _full2_bases())),
+                ('base_random', len(BASES) * 6000),
                 ('sweep2', 60000),
                 ('random', 120000)]
     return [('sweep1', len(BASES) * SLOT1),
+            ('sweep1b', len(BASES) * SLOT1),
+            ('base_random', len(BASES) * 250),
             ('sweep2', 3000 if q else 150000),
             ('random', 2500 if q else 120000)]
 
 
 def make_case(family, i, rng, tier):
-    if family == 'sweep1':
+    if family in ('sweep1', 'sweep1b'):
         b = i // SLOT1
         n, nt = _info(b)
         slot = i % SLOT1
         step, who = slot // (nt + 1), slot % (nt + 1)
-        if step < 1 or step > n:
-            return None
         tid = who if who < nt else T.threadsim.CLOCK
         case = copy.deepcopy(BASES[b])
-        case['schedule'] = {'kind': 'preempt', 'points': [[step, tid]]}
+        if family == 'sweep1':
+            if step < 1 or step > n:
+                return None
+            case['schedule'] = {'kind': 'preempt', 'points': [[step, tid]]}
+        else:
+            # same sweep over the other default order: the sender threads
+            # run first (the event loop is held back at the spawn point), so
+            # that one pre-emption can hand a half-finished send to an event
+            # loop that still has unread traffic
+            if step < 2 or step > n + 60:
+                return None
+            case['schedule'] = {'kind': 'preempt',
+                                'points': [[1, 1], [step, tid]]}
+        return case
+    if family == 'base_random':
+        # seeded random-walk / PCT schedules over the hand-written bases
+        # (their interesting windows need two or more pre-emptions)
+        case = copy.deepcopy(BASES[i % len(BASES)])
+        if rng.random() < 0.6:
+            case['schedule'] = {'kind': 'random', 'seed': rng.getrandbits(32),
+                                'stay': rng.choice([0.5, 0.7, 0.85, 0.95])}
+        else:
+            case['schedule'] = {'kind': 'pct', 'seed': rng.getrandbits(32),
+                                'd': rng.choice([2, 3, 4]),
+                                'horizon': rng.choice([150, 400, 800])}
         return case
     if family == 'sweep2_full':
         for b in _full2_bases():
@@ -156,14 +192,15 @@ def make_case(family, i, rng, tier):
                 range(rng.choice([0, 1, 1, 2]))]
         if t == closer or rng.random() < 0.25:
             prog.insert(rng.randrange(len(prog) + 1),
-                        {'op': 'close', 'code': rng.choice([1000, 1001, 3000]),
+                        {'op': 'close', 'code': rng.choice([1000, 1001, 3000,
+                                                            None]),
                          'reason': 'r%d' % t})
         if not prog:
             prog = [T.send_op(rng, t + 1, 0)]
         threads.append(prog)
     case = {'name': 'random', 'threads': threads,
             'loop': rng.choice([[], [], ['ping'], ['close'], ['ping', 'close'],
-                                ['text']]),
+                                ['text'], ['close_empty']]),
             'compress': rng.random() < 0.3, 'cnct': rng.random() < 0.5,
             'ping_rate': rng.choice([0, 0, 0.5]), 'poll': rng.choice([1, 0.5]),
             'app_echo': rng.random() < 0.3}
@@ -235,8 +272,14 @@ def execute(case):
                 res.bad('C12/%s/close_raised_%s' % (base, c.exc),
                         'close() raised in thread %d' % c.tid)
             continue
-        on_wire = (opcode, ref) in seen
-        if c.outcome == 'ok' and not on_wire and not inflate_failed \
+        # payloads may repeat: compare counts of accepted calls and frames
+        n_wire = seen.count((opcode, ref))
+        n_ok = sum(1 for c2 in tr.tcalls if c2.outcome == 'ok' and
+                   c2.op['op'] != 'close' and T.ref_payload(c2.op) ==
+                   (opcode, ref))
+        on_wire = n_wire > n_ok if c.outcome == 'raised' else n_wire >= n_ok \
+            and n_wire > 0
+        if c.outcome == 'ok' and n_wire < n_ok and not inflate_failed \
                 and not case.get('compress'):
             res.bad('C12/%s/accepted_but_not_written' % base,
                     '%s of thread %d returned normally, frame not on the '
